@@ -222,9 +222,17 @@ func cmdCheck(repo, root string, args []string) int {
 		obls = append(obls, rep.Obls...)
 		vac = append(vac, rep.Vacuity...)
 	}
+	if prop == "C08" {
+		obls = append(obls, w.gsm7TableObligations(root)...)
+	}
 	genS := time.Since(t0).Seconds() - loadS
 	if len(obls) == 0 && len(genErrs) == 0 {
 		return fault("no obligations generated for " + prop + " (vacuity guard)")
+	}
+	for _, o := range obls {
+		if w.Known[o.Name] != nil {
+			o.ShortTimeout = true
+		}
 	}
 	dischargeAll(obls, timeout, 10, allSolvers)
 	dischargeAll(vac, 3*time.Second, 10, []string{"z3", "cvc5"})
@@ -409,27 +417,27 @@ func cmdCheck(repo, root string, args []string) int {
 	cov := map[string]interface{}{
 		// obligations that have to be discharged on this tree: all generated ones except those a listed known finding
 		// names (each of those is replaced by its residual obligation, which is counted here)
-		"obligations":              nObl - nKnownObl,
-		"discharged":               discharged,
-		"obligations_generated":    nObl,
+		"obligations":                            nObl - nKnownObl,
+		"discharged":                             discharged,
+		"obligations_generated":                  nObl,
 		"obligations_excluded_by_known_findings": nKnownObl,
-		"discharged_by_simplifier": trivial,
-		"failed":                   len(fails),
-		"known_findings":           knownLines,
-		"checker_cmd":              fmt.Sprintf("/verif/check %s %s  (govc: go/ssa weakest-precondition style VC generation over /repo's working tree; z3 4.8.12, z3 5.1.0, cvc5 1.0 raced per obligation, timeout %v)", prop, tier, timeout),
-		"trusted_base":             asm,
-		"functions_under_contract": funcs,
-		"solver_wins":              wins,
-		"solver_ms_total":          totalMS,
-		"solver_ms_max":            maxMS,
-		"slowest_obligation":       maxName,
-		"theory_lemmas_reproved":   len(t1Lemmas),
-		"vacuity_checks":           len(vac),
-		"samples":                  samples,
-		"witness_replays":          witnessSummary(wres),
-		"load_s":                   loadS,
-		"generate_s":               genS,
-		"contract_files":           relFiles(w.Files, repo),
+		"discharged_by_simplifier":               trivial,
+		"failed":                                 len(fails),
+		"known_findings":                         knownLines,
+		"checker_cmd":                            fmt.Sprintf("/verif/check %s %s  (govc: go/ssa weakest-precondition style VC generation over /repo's working tree; z3 4.8.12, z3 5.1.0, cvc5 1.0 raced per obligation, timeout %v)", prop, tier, timeout),
+		"trusted_base":                           asm,
+		"functions_under_contract":               funcs,
+		"solver_wins":                            wins,
+		"solver_ms_total":                        totalMS,
+		"solver_ms_max":                          maxMS,
+		"slowest_obligation":                     maxName,
+		"theory_lemmas_reproved":                 len(t1Lemmas),
+		"vacuity_checks":                         len(vac),
+		"samples":                                samples,
+		"witness_replays":                        witnessSummary(wres),
+		"load_s":                                 loadS,
+		"generate_s":                             genS,
+		"contract_files":                         relFiles(w.Files, repo),
 	}
 	if discharged != nObl-nKnownObl {
 		// the proof did not go through: this run proves nothing; say so rather than claim the level
